@@ -38,10 +38,10 @@ TIE = {
  "C16": "Index::from_str and Index::{for_len,for_len_incl,for_len_unchecked}",
  "C11": "PointerBuf::{push_front,push_back,pop_front,pop_back,append,replace,clear,from_tokens}",
  "C05": "the four `resolve`/`resolve_mut` walks (json and toml), `parse_index`, `Index::from_str`, `Index::for_len`",
- "C09": "the four `resolve`/`resolve_mut` walks (json and toml), `parse_index`, `Index::from_str`, `Index::for_len`",
+ "C09": "the four `resolve`/`resolve_mut` walks and both `delete` impls (json and toml), `parse_index`, `Index::from_str`, `Index::for_len`",
  "C15": "the four `resolve`/`resolve_mut` walks (json and toml), `parse_index`, `Index::from_str`, `Index::for_len` (assign's own walk is not translated)",
- "C08": "the `resolve_mut` walks `delete` is built on, `Index::from_str`, `Index::for_len` (`delete` itself is not translated)",
- "C10": "the `resolve`/`resolve_mut` walks, `Index::from_str`, `Index::for_len` (`assign` and `delete` are not translated)",
+ "C08": "`Delete::delete` for serde_json::Value and toml::Value, the `resolve_mut` walks it is built on, `split_back`, `Index::from_str`, `Index::for_len`",
+ "C10": "`delete` (both backends), the `resolve`/`resolve_mut` walks, `Index::from_str`, `Index::for_len` (`assign` is not translated)",
  "C06": "Index::from_str and Index::for_len_incl (`assign`/`expand` themselves are not translated)",
  "C07": "Index::from_str and Index::for_len_incl (`assign`/`expand` themselves are not translated)",
  "C19": "the token, range-slicing, splitting and prefix/suffix functions listed for C03, C12, C13, C04",
